@@ -7,7 +7,7 @@
 EXTENDS PushRand
 
 HarnessInstr == {"VERIF.PROBE", "VERIF.SLEEP", "VERIF.NOOP*WITH*A*NAME*LONGER*THAN*ANY*BUILTIN*INSTRUCTION",
-                 "VERIF.NÖÖP*MIT*UMLÄUTEN*ÜBER*DREIUNDZWANZIG*BYTES", "VERIF.ÄÖÜ*ÄÖÜ*ÄÖÜ*ÄÖÜ*ÄÖÜ*ÄÖÜ*ÄÖÜ*ÄÖÜ*ÄÖÜ*ÄÖÜ*ÄÖÜ*ÄÖÜ*NOOP", "VERIF.MyInstruction", "VERIFSQUARE", "verif.lower", "2VERIF"}
+                 "VERIF.NÖÖP*MIT*UMLÄUTEN*ÜBER*DREIUNDZWANZIG*BYTES", "VERIF.ÄÖÜ*ÄÖÜ*ÄÖÜ*ÄÖÜ*ÄÖÜ*ÄÖÜ*ÄÖÜ*ÄÖÜ*ÄÖÜ*ÄÖÜ*ÄÖÜ*ÄÖÜ*NOOP", "VERIF.MyInstruction", "VERIFSQUARE", "verif.lower", "2VERIF", "424242", "4.25"}
 Registry == StackOpNames \cup ScalarInstr \cup CodeFamily \cup VectorInstr \cup ListInstr \cup IOInstr
             \cup GraphInstr \cup RandInstr \cup {"NOOP"}
 KnownInstr == Registry \cup HarnessInstr
